@@ -306,6 +306,35 @@ pub fn run(ctx: &Ctx) {
         l.class("long-sparse-collection");
         check(s, v, TAILS[1], false, l)
     });
+    // (b2'') sequences of zero-sized elements with counts around 2^24 (no memory behind them, only the count is encoded)
+    ctx.serial("huge-zero-sized-sequences", |l| {
+        for n in [(1usize << 24) - 1, 1 << 24, (1 << 24) + 1, (1 << 25) + 3] {
+            macro_rules! zs {
+                ($t:ty, $e:expr, $name:literal) => {{
+                    l.eval();
+                    let v: Vec<$t> = vec![$e; n];
+                    let cj = json!({"huge_zero_sized": $name, "n": n});
+                    let bytes = postcard::to_allocvec(&v).map_err(|e| fail("roundtrip", format!("to_allocvec of Vec<{}> with {} elements failed: {:?}", $name, n, e), cj.clone()))?;
+                    let back = crate::runner::no_panic(|| postcard::from_bytes::<Vec<$t>>(&bytes)).map_err(|p| fail("roundtrip", format!("from_bytes panicked: {}", p), cj.clone()))?;
+                    match back {
+                        Ok(b) if b.len() == n => {}
+                        other => return Err(fail("roundtrip", format!("Vec<{}> with {} elements ({} bytes) came back as {:?}", $name, n, bytes.len(), other.map(|b| b.len())), cj)),
+                    }
+                    let mut scratch = [0u8; 8];
+                    let via_io = crate::runner::no_panic(|| postcard::from_io::<Vec<$t>, _>((&bytes[..], &mut scratch[..])).map(|(b, _)| b.len()))
+                        .map_err(|p| fail("roundtrip", format!("from_io panicked: {}", p), json!({"huge_zero_sized": $name, "n": n})))?;
+                    if via_io != Ok(n) {
+                        return Err(fail("roundtrip", format!("from_io of Vec<{}> with {} elements gave {:?}", $name, n, via_io), json!({"huge_zero_sized": $name, "n": n})));
+                    }
+                    l.nontrivial(&($name, n));
+                }};
+            }
+            zs!((), (), "()");
+            zs!(std::marker::PhantomData<u8>, std::marker::PhantomData, "PhantomData<u8>");
+            zs!([u8; 0], [], "[u8; 0]");
+        }
+        Ok(())
+    });
     // (b3) two messages through one reader and its returned scratch
     ctx.par_proptest(
         "reader-chain-borrowed",
@@ -345,7 +374,7 @@ pub fn run(ctx: &Ctx) {
 
     // (c2) long payloads: counts whose varint needs 3 and 4 bytes
     {
-        let lens: Vec<usize> = vec![16383, 16384, 16385, 20000, 32767, 32768, 40000, 49151, 49152, 65535, 65536, 81920, 2097151, 2097152, 2097153, 3000000, 4194303, 4194304];
+        let lens: Vec<usize> = vec![509, 510, 511, 1021, 1022, 1023, 1533, 1534, 2045, 2046, 4094, 8190, 16381, 16382, 16383, 16384, 16385, 20000, 32767, 32768, 40000, 49151, 49152, 65535, 65536, 81920, 2097151, 2097152, 2097153, 3000000, 4194303, 4194304];
         let kinds = 5u64;
         let lens_ref = &lens;
         ctx.par_range("long-payloads", lens.len() as u64 * kinds, move |i, l| {
